@@ -44,6 +44,74 @@ impl PairCase {
     }
 }
 
+/// Few terms, very many records: two terms whose gene sets together exceed 65 535 entries (the
+/// union does not), and terms annotated with all but one of more than 10 000 records, so that their
+/// information content is tiny (< 1e-4) but not zero.
+fn many_records_case(rng: &mut Rng, out: &mut CaseOut) -> Option<PairCase> {
+    use crate::facts::{FactSet, RecFact, TermFact};
+    let mut f = FactSet::default();
+    // 1 <- 118 <- {3, 4};  1 <- 5 <- 6
+    for id in [1u32, 118, 3, 4, 5, 6] {
+        f.terms.push(TermFact { id, name: format!("t{id}"), obsolete: false, replaced_by: None });
+    }
+    f.edges = vec![(118, 1), (3, 118), (4, 118), (5, 1), (6, 5)];
+    let n_genes = 60_000 + rng.range(0, 4000) as u32;
+    let third = n_genes / 3;
+    for g in 0..n_genes {
+        let mut terms = Vec::new();
+        if g < 2 * third {
+            terms.push(3);
+        }
+        if g >= third {
+            terms.push(4);
+        }
+        f.recs[0].push(RecFact { id: g + 1, name: format!("G{g}"), terms });
+    }
+    f.recs[0].push(RecFact { id: n_genes + 1, name: "OTHER".into(), terms: vec![6] });
+    let n_omim = 20_000 + rng.range(0, 3000) as u32;
+    for d in 0..n_omim {
+        f.recs[1].push(RecFact { id: d + 1, name: format!("D{d}"), terms: vec![118] });
+    }
+    f.recs[1].push(RecFact { id: n_omim + 1, name: "other".into(), terms: vec![5] });
+    let n_orpha = 11_000 + rng.range(0, 3000) as u32;
+    for d in 0..n_orpha {
+        f.recs[2].push(RecFact { id: d + 1, name: format!("O{d}"), terms: vec![3] });
+    }
+    f.recs[2].push(RecFact { id: n_orpha + 1, name: "other".into(), terms: vec![6] });
+    let path = if rng.chance(1, 2) { PathKind::BuilderMinimal } else { PathKind::BytesV3 };
+    let built = match path {
+        PathKind::BuilderMinimal => crate::drive::via_builder(&f, None, false),
+        _ => crate::drive::via_bytes(&f, 3).1,
+    };
+    let ont = match built {
+        Ok(o) => o,
+        Err(e) => {
+            out.violate("C04", &format!("construct_failed/{}", path.name()), format!("many-records ontology rejected: {e}"));
+            return None;
+        }
+    };
+    let model = Model::new(&f, false);
+    let ids: Vec<u32> = f.terms.iter().map(|t| t.id).collect();
+    let obs = crate::observe::walk(&ont, &ids, &mut out.events);
+    out.bucket("more_than_65535_records_on_two_terms_together");
+    out.bucket("information_content_below_1e-4");
+    out.case = Json::obj()
+        .set("kind", Json::s("many_records"))
+        .set("genes", Json::u(u64::from(n_genes) + 1))
+        .set("omim", Json::u(u64::from(n_omim) + 1))
+        .set("orpha", Json::u(u64::from(n_orpha) + 1))
+        .set("path", Json::s(path.name()));
+    let sc = StateCase {
+        view: FactSet::default(),
+        facts: FactSet::default(),
+        path,
+        order: crate::drive::OrderMode::AsGiven,
+        shape: "6 terms, > 90 000 records".into(),
+        id_mode: "fixed".into(),
+    };
+    Some(PairCase { sc, ont, obs, model, subset: Some(ids) })
+}
+
 /// the complete HPO shipped as tests/ontology.hpo, with a sample of ~36 terms (random terms plus
 /// ancestors / descendants / siblings of some of them) for the pair queries
 fn real_pair_case(rng: &mut Rng, out: &mut CaseOut) -> Option<PairCase> {
@@ -829,6 +897,9 @@ impl Monitor for PairMonitor {
             v.extend(super::group::plan(tier));
         }
         v.push("real:0".to_string());
+        if self.prop == "C04" {
+            v.push("manyrec:0".to_string());
+        }
         for i in 0..tier.pick(60, 3000) {
             v.push(format!("alt:{i}"));
         }
@@ -836,6 +907,9 @@ impl Monitor for PairMonitor {
         if self.prop == "C11" {
             for i in 0..12 {
                 v.push(format!("shortcut:{i}"));
+            }
+            for i in 0..tier.pick(2, 12) {
+                v.push(format!("long:{i}"));
             }
         }
         let n = match self.prop {
@@ -859,6 +933,7 @@ impl Monitor for PairMonitor {
                 "pair/disconnected",
                 "shorter_route_over_higher_common_ancestor",
                 "diamond_with_tie",
+                "chain_longer_than_256_links",
             ],
             "C12" => {
                 let mut v = vec!["pair_ancestor_descendant", "pair_same_term", "all_union_reading_excludes_terms|all_union_reading_includes_terms"];
@@ -870,6 +945,8 @@ impl Monitor for PairMonitor {
                 "pair_without_common_ancestor",
                 "distinct_pair_without_annotations",
                 "pair_with_one_zero_ic",
+                "more_than_65535_records_on_two_terms_together",
+                "information_content_below_1e-4",
             ],
         };
         let mut v: Vec<String> = v.into_iter().filter(|s| !s.contains('|')).map(str::to_string).collect();
@@ -965,6 +1042,57 @@ impl Monitor for PairMonitor {
             let ids: Vec<u32> = sc.view.terms.iter().map(|t| t.id).collect();
             let obs = crate::observe::walk(&ont, &ids, &mut out.events);
             PairCase { sc, ont, obs, model, subset: None }
+        } else if label.starts_with("long") {
+            // chains of more than 256 links (distances that do not fit a byte), with a side branch near
+            // the top so that related pairs have a far-away common ancestor
+            let i: u32 = label.split(':').nth(1).unwrap().parse().unwrap();
+            let len = 258 + (i as usize % 3) * 40 + rng.urange(0, 30);
+            let id_of = |j: usize| -> u32 { if j == 0 { 1 } else if j == 1 { 118 } else { 200 + (j as u32) * 3 + (i % 2) } };
+            let mut f = crate::facts::FactSet::default();
+            for j in 0..=len {
+                f.terms.push(crate::facts::TermFact { id: id_of(j), name: format!("c{j}"), obsolete: false, replaced_by: None });
+                if j > 0 {
+                    f.edges.push((id_of(j), id_of(j - 1)));
+                }
+            }
+            let branch_at = rng.urange(0, 12);
+            let (s1, s2) = (5_000_000u32, 5_000_001u32);
+            f.terms.push(crate::facts::TermFact { id: s1, name: "s1".into(), obsolete: false, replaced_by: None });
+            f.terms.push(crate::facts::TermFact { id: s2, name: "s2".into(), obsolete: false, replaced_by: None });
+            f.edges.push((s1, id_of(branch_at)));
+            f.edges.push((s2, s1));
+            let mut subset: BTreeSet<u32> = [0, 1, branch_at, branch_at + 1, len - 257, len - 256, len - 255, len - 1, len].iter().map(|j| id_of(*j)).collect();
+            subset.insert(s1);
+            subset.insert(s2);
+            for _ in 0..6 {
+                subset.insert(id_of(rng.urange(0, len)));
+            }
+            let sc = StateCase {
+                view: f.clone(),
+                facts: f,
+                path: if rng.chance(1, 2) { PathKind::BuilderMinimal } else { PathKind::BytesV2 },
+                order: crate::drive::OrderMode::AsGiven,
+                shape: format!("chain of {len} links with a side branch"),
+                id_mode: "fixed".into(),
+            };
+            let ont = match construct(&sc.view, sc.path, &mut rng, self.prop) {
+                Ok(o) => o,
+                Err(e) => {
+                    out.violate(self.prop, &format!("construct_failed/{}", sc.path.name()), format!("{e}"));
+                    return out;
+                }
+            };
+            let model = Model::new(&sc.view, false);
+            let ids: Vec<u32> = sc.view.terms.iter().map(|t| t.id).collect();
+            let obs = crate::observe::walk(&ont, &ids, &mut out.events);
+            out.bucket("chain_longer_than_256_links");
+            out.case = case_json(&sc);
+            PairCase { sc, ont, obs, model, subset: Some(subset.into_iter().collect()) }
+        } else if label.starts_with("manyrec") {
+            match many_records_case(&mut rng, &mut out) {
+                Some(pc) => pc,
+                None => return out,
+            }
         } else if label.starts_with("real") {
             match real_pair_case(&mut rng, &mut out) {
                 Some(pc) => pc,
